@@ -157,6 +157,7 @@ pub const DEF: PropDef = PropDef {
     droppable,
     well_formed,
     deviation_signature: true,
+    group_change_save: false,
     rule: "one evaluation = one simulated run of the real ServerState: a seeded client script (didOpen, then 2-8 of didChange/didSave/requests) delivered by a tower-lsp-like dispatcher (<=4 handlers in flight, FIFO first poll) while a seeded scheduler interleaves handler segments, compile-worker segments (every shared-state access and every abort point is a scheduling point) and batches of queued file I/O; distinct+non-trivial = distinct decision traces (sequence of chosen action and site)",
     components_real: &["sway_lsp::ServerState and all handlers", "compile worker thread", "sway-core / forc-pkg compilation", "crossbeam channel", "tokio Notify", "tokio::fs on a 1-thread blocking pool", "SyncWorkspace temp dirs", "PidLockedFiles"],
     components_stub: &["JSON-RPC transport and tower-lsp router (dispatcher model)", "LSP client (client: None)", "entropy (seeded shim)", "ps (fake, liveness table)"],
